@@ -9,6 +9,7 @@ main-net transaction), vlib/ref/secp256k1.py (pure Python ECDSA, validated on RF
 vlib/ref/pbwire.py.  python-ecdsa is used as a second verifier; a disagreement between the two verifiers is a
 harness error, never a verdict.
 """
+import asyncio
 import hashlib
 import struct
 
@@ -279,6 +280,7 @@ def tx_case(tier):
         return {"accounts": accounts, "inputs": inputs, "outputs": outputs,
                 # what the daemon's publish / update flows do between create() (which has read sizes) and sign():
                 # an output's script is regenerated in place (Output.sign by a channel, updated claim payload)
+                "reader_during_sign": draw(st.sampled_from([False, False, True])),
                 "post_read_edit": draw(st.sampled_from([None, None, {"out": draw(st.integers(0, 3)),
                                                                      "extra": draw(st.binary(min_size=1, max_size=40)).hex()}])),
                 "version": draw(st.sampled_from([1, 2, 0xFFFFFFFF])) if special else 1,
@@ -361,7 +363,24 @@ async def _sign_flow(case):
             elif "script_hash" in values:
                 values["script_hash"] = hashlib.sha256(bytes.fromhex(edit["extra"])).digest()[:20]
             txo.script.generate()
-        await tx.sign(accounts)
+        if case.get("reader_during_sign"):
+            # another coroutine looks at the transaction (id for a log line, size for a fee preview) while sign() is suspended
+            # in its key lookups: what sign() returns must still be the signed serialisation
+            state = {"stop": False, "reads": 0}
+
+            async def reader():
+                while not state["stop"]:
+                    _ = tx.raw, tx.id, tx.size
+                    state["reads"] += 1
+                    await asyncio.sleep(0)
+            rt = asyncio.ensure_future(reader())
+            try:
+                await tx.sign(accounts)
+            finally:
+                state["stop"] = True
+                await rt
+        else:
+            await tx.sign(accounts)
         return tx.raw, funding_raws
     finally:
         await ledger.db.close()
